@@ -44,6 +44,58 @@ fn cut_too_early(b: &RawBlock, next: &RawBlock, b_eff: usize) -> bool {
     b.uncompressed_size() < b_eff && b.uncompressed_size() + first_entry_cost(next, b) < b_eff
 }
 
+/// The levels whose blocks are cut at the size: data blocks, and index blocks more than one level
+/// below the root (depth 1 = root).
+fn cut_levels(layout: &Layout) -> Vec<&Vec<usize>> {
+    let levels = layout.trailer.levels as usize;
+    let mut v: Vec<&Vec<usize>> = (2..=levels + 1).map(|d| &layout.by_depth[d]).collect();
+    if levels == 0 {
+        v.push(&layout.by_depth[1]);
+    }
+    v
+}
+
+/// When no block size was configured, B is the library's default, which the statement does not
+/// name: the rule then asks that ONE value B >= 1024 explains every cut of the file — above every
+/// block's size without its final entry, and not above what any non-last block would have reached
+/// with the next entry.
+pub fn infer_block_size(layout: &Layout) -> Result<usize, String> {
+    let mut lo = 1024usize;
+    let mut hi = usize::MAX;
+    let (mut lo_at, mut hi_at) = (0u64, 0u64);
+    for ids in cut_levels(layout) {
+        for (pos, &bi) in ids.iter().enumerate() {
+            let b = &layout.blocks[bi];
+            let wo = size_without_last(b);
+            if wo + 1 > lo {
+                lo = wo + 1;
+                lo_at = b.offset;
+            }
+            if pos + 1 < ids.len() {
+                let reach = std::cmp::max(b.uncompressed_size(), b.uncompressed_size() + first_entry_cost(&layout.blocks[ids[pos + 1]], b));
+                if reach < hi {
+                    hi = reach;
+                    hi_at = b.offset;
+                }
+            }
+        }
+    }
+    if lo > hi {
+        return Err(format!(
+            "no single block size >= 1024 explains the cuts (none was configured): the block at offset {lo_at} is still {} bytes without its final entry, while the block at offset {hi_at} was emitted although even with the next entry it reaches only {hi}",
+            lo - 1
+        ));
+    }
+    Ok(lo)
+}
+
+pub fn size_rule_opt(layout: &Layout, configured: Option<usize>) -> Result<(u64, u64), String> {
+    match configured {
+        Some(b) => size_rule(layout, std::cmp::max(1024, b)),
+        None => size_rule(layout, infer_block_size(layout)?),
+    }
+}
+
 pub fn size_rule(layout: &Layout, b_eff: usize) -> Result<(u64, u64), String> {
     let levels = layout.trailer.levels as usize;
     let mut checked = 0u64;
@@ -109,7 +161,7 @@ pub fn check_spec(spec: &FileSpec) -> Result<(u64, u64), (String, String)> {
     let bytes = write_file(&spec.cfg, &entries).map_err(|e| ("prerequisite".to_string(), e))?;
     // only the block structure is needed; conformance of the content is C09's business
     let layout = decode_structure(&bytes).map_err(|e| ("prerequisite".to_string(), e))?;
-    size_rule(&layout, spec.cfg.effective_block_size()).map_err(|e| ("size".to_string(), e))
+    size_rule_opt(&layout, spec.cfg.block_size).map_err(|e| ("size".to_string(), e))
 }
 
 fn check_one(spec: &FileSpec, acc: &mut Acc) {
@@ -163,11 +215,10 @@ pub fn check_chunks(c: &ChunkCase) -> Result<(u64, u64, usize), String> {
         })
         .collect();
     let files = crate::sorter_util::sorter_chunk_files(&c.cfg, &inserts)?;
-    let b_eff = std::cmp::max(1024, c.cfg.block_size.unwrap_or(8192));
     let (mut checked, mut full) = (0, 0);
     for (j, f) in files.iter().enumerate() {
         let layout = decode_structure(f).map_err(|e| format!("chunk #{j} of {}: {e}", files.len()))?;
-        let (c1, f1) = size_rule(&layout, b_eff).map_err(|e| format!("chunk #{j} of {} (configured block_size {:?}): {e}", files.len(), c.cfg.block_size))?;
+        let (c1, f1) = size_rule_opt(&layout, c.cfg.block_size).map_err(|e| format!("chunk #{j} of {} (configured block_size {:?}): {e}", files.len(), c.cfg.block_size))?;
         checked += c1;
         full += f1;
     }
@@ -233,7 +284,7 @@ pub fn run(tier: Tier) -> i32 {
     });
     acc.merge(a2);
     rep.acc = acc;
-    rep.set("rule", json!("E2: every file of the C01 population (all 8 block-size settings incl. 0, 1, 1023 -> clamp to 1024) is decoded by the independent decoder; for every data block and every index block >= 2 levels below the root: uncompressed size without its final entry (and without the offset slot that entry opened) < B_eff = max(1024, B), and every such block except the last of its level either reached B_eff or would have reached it with the next entry (early cuts for no size reason are violations; both cut-after-reaching and cut-before-crossing are accepted); the same rule is applied to the chunk files a Sorter writes itself (spilled and merged chunks, obtained through into_reader_cursors over CursorVec chunks) for the configured block_size; states = files, transitions = blocks checked; distinct_nontrivial = files containing at least one block that was cut at the size threshold"));
+    rep.set("rule", json!("E2: every file of the C01 population (all 8 block-size settings incl. 0, 1, 1023 -> clamp to 1024) is decoded by the independent decoder; for every data block and every index block >= 2 levels below the root: uncompressed size without its final entry (and without the offset slot that entry opened) < B_eff = max(1024, B) (when no block size is configured B is the library's default, which the statement does not name: the rule then requires that one value B >= 1024 explains every cut of the file), and every such block except the last of its level either reached B_eff or would have reached it with the next entry (early cuts for no size reason are violations; both cut-after-reaching and cut-before-crossing are accepted); the same rule is applied to the chunk files a Sorter writes itself (spilled and merged chunks, obtained through into_reader_cursors over CursorVec chunks) for the configured block_size; states = files, transitions = blocks checked; distinct_nontrivial = files containing at least one block that was cut at the size threshold"));
     rep.set("bound", pop.describe());
     rep.finish()
 }
